@@ -148,6 +148,12 @@ form('opt-invocation-spread-args', { ops: ['trim'] }, F => `w.o${F.id()}.f1?.(..
 form('opt-invocation-mixed-spread-args', { ops: ['concat'] }, F => `w.o${F.id()}.f1?.(${F.s()}, ...w.arr${F.id()}, ${F.f()}).concat(${F.s()})`)
 form('opt-invocation-computed-callee', { ops: ['trim'] }, F => `w.o${F.id()}[w.k${F.id()}]?.(${F.s()}).trim()`)
 form('opt-ident-invocation', { ops: ['trim'] }, F => { const a = F.loc('w.f' + F.id()); return `${a}?.(${F.s()}, ...w.it${F.id()}).trim()` })
+form('opt-literal-base-string', { ops: ['substring'], instr: false }, F => `'⟦L${F.id()}⟧'?.substring(${F.loc('w.i' + F.id())})`)
+form('opt-literal-base-number', { ops: ['trim'], nodemand: true }, F => `1?.toString().trim().concat(${F.s()})`)
+form('opt-literal-base-regex', { ops: ['substring'], nodemand: true }, F => `/x${F.id()}/?.source.substring(1).concat(${F.f()})`)
+form('opt-literal-invocation', { ops: ['trim'], nodemand: true }, F => `'⟦L${F.id()}⟧'.concat?.(${F.s()}).trim()`)
+form('opt-null-literal-base', { ops: ['trim'], nodemand: true }, F => `null?.trim().concat(${F.f()})`)
+form('opt-this-base', { ops: ['trim'], nodemand: true, needs: 'this' }, F => `this?.s${F.id()}.trim()`)
 form('opt-unlisted', { ops: [], instr: false }, F => `${F.loc()}?.charAt(0)`)
 form('opt-arg-opt', { ops: ['concat', 'trim'], kf: 'D17' }, F => `${F.loc()}?.concat(${F.loc()}?.trim())`)
 form('opt-nested-arg-guard', { ops: ['trim', 'concat'], kf: 'D17' }, F => { const o = `w.o${F.id()}`; return `${o}?.n1?.trim().concat(${o}?.s2.trim())` })
